@@ -488,6 +488,110 @@ def degree_forms(prog, fi, _other=None):
     return out
 
 
+POWER_SCENARIOS = [
+    ("a symbolic exponent (x ** y)", dict(const=False, number=True, integral=True, negative=False)),
+    ("an array-valued Constant exponent", dict(const=True, number=False, integral=True, negative=False)),
+    ("a fractional exponent (x ** 0.5)", dict(const=True, number=True, integral=False, negative=False)),
+    ("a negative exponent (x ** -1)", dict(const=True, number=True, integral=True, negative=True)),
+    ("the exponent 2", dict(const=True, number=True, integral=True, negative=False)),
+]
+
+
+def _power_by_scenario(prog, rep, fi):
+    """R04.1 for `base ** exponent`, shape-free: the analyser is walked with `node is a BinaryOp, op == "**"` under
+    five exponent scenarios (helper functions summarised, locals substituted).  A finite degree may only be answered
+    for a Constant, numeric, integral, non-negative exponent; in the four other scenarios every answer must be None.
+    Works for the recursive analyser (answers = returns) and the iterative one (answers = result_stack.append)."""
+    from ..scenario import Explorer
+    from ..symexec import SymWalker, subst, is_none_node
+
+    d = dispatcher(prog, fi)
+    subj = d.subject
+    iterative = any(isinstance(n, ast.While) for n in walk_local(fi.node))
+    results = {}
+    for label, sc in POWER_SCENARIOS:
+        def facts(t, sc=sc):
+            text = src(t)
+            if isinstance(t, ast.Call) and dotted(t.func) == "isinstance" and len(t.args) == 2:
+                what, ks = src(t.args[0]), src(t.args[1])
+                if what == subj:
+                    return "BinaryOp" in ks
+                if what == f"{subj}.right" and "Constant" in ks and "Parameter" not in ks:
+                    return sc["const"]
+                if ".right.value" in what or ".value" in what:
+                    if "Number" in ks or ks in ("(int, float)", "(float, int)", "int", "float"):
+                        return sc["number"]
+                return None
+            if isinstance(t, ast.Call) and isinstance(t.func, ast.Attribute) and t.func.attr == "is_integer":
+                return sc["integral"]
+            if isinstance(t, ast.Compare) and len(t.ops) == 1:
+                l, r, op = src(t.left), src(t.comparators[0]), t.ops[0]
+                if l in (f"{subj}.op", "op") or (l.endswith(".op")):
+                    c = t.comparators[0]
+                    if isinstance(c, ast.Constant):
+                        hit = c.value == "**"
+                        return hit if isinstance(op, ast.Eq) else (not hit) if isinstance(op, ast.NotEq) else None
+                    if isinstance(c, (ast.Tuple, ast.List, ast.Set)) and isinstance(op, (ast.In, ast.NotIn)):
+                        hit = "**" in [e.value for e in c.elts if isinstance(e, ast.Constant)]
+                        return hit if isinstance(op, ast.In) else (not hit)
+                if ".right.value" in l and isinstance(t.comparators[0], (ast.Constant, ast.UnaryOp)):
+                    try:
+                        c = ast.literal_eval(t.comparators[0])
+                    except Exception:
+                        return None
+                    if not isinstance(c, (int, float)) or isinstance(c, bool):
+                        return None
+                    val = -1 if sc["negative"] else (2 if sc["integral"] else 0.5)
+                    return {ast.Lt: val < c, ast.LtE: val <= c, ast.Gt: val > c, ast.GtE: val >= c, ast.Eq: val == c, ast.NotEq: val != c}.get(type(op))
+                if l == "phase" and isinstance(t.comparators[0], ast.Constant):
+                    return None
+            return None
+
+        w = SymWalker(prog, fi.module, facts, lambda st, env: None, non_none=())
+        w.never_none_extra = True
+        answers = set()
+        try:
+            if not iterative:
+                for v in w.returns(fi, {}):
+                    answers.add("None" if is_none_node(v) else "finite:" + src(v)[:40])
+            else:
+                loop = [n for n in walk_local(fi.node) if isinstance(n, ast.While)][0]
+
+                def atom_truth(t, state):
+                    return w.truth(t, state["env"])
+
+                def on_stmt(st, state):
+                    env = state["env"]
+                    if isinstance(st, ast.Assign) and len(st.targets) == 1 and isinstance(st.targets[0], ast.Name):
+                        env[st.targets[0].id] = w.value(st.value, env)
+                    elif isinstance(st, ast.Assign) and isinstance(st.targets[0], ast.Tuple):
+                        for e in st.targets[0].elts:
+                            if isinstance(e, ast.Name):
+                                env.pop(e.id, None)
+                    for c in (ast.walk(st) if isinstance(st, ast.Expr) else []):
+                        if isinstance(c, ast.Call) and isinstance(c.func, ast.Attribute) and c.func.attr == "append" and src(c.func.value) == "result_stack" and c.args:
+                            v = w.value(c.args[0], env)
+                            # a popped child degree is taken to be finite (the child is polynomial)
+                            state["answers"].add("None" if is_none_node(v) else "finite:" + src(v)[:40])
+
+                body = [st for st in loop.body]
+                for st_, _term in Explorer(atom_truth, on_stmt, max_paths=4096).explore(body, {"env": {}, "answers": set()}):
+                    answers |= st_["answers"]
+        except Exception as e:
+            rep.undecided(f"{fi.name}[BinaryOp **]: scenario walk failed ({type(e).__name__}: {str(e)[:50]})")
+            return False
+        results[label] = answers
+    ok_label = POWER_SCENARIOS[-1][0]
+    if not any(a.startswith("finite") for a in results.get(ok_label, ())):
+        rep.undecided(f"{fi.name}[BinaryOp **]: no finite answer found for a constant natural exponent (walk incomplete)")
+        return False
+    for label, _sc in POWER_SCENARIOS[:-1]:
+        fin = sorted(a for a in results[label] if a.startswith("finite"))
+        # child degrees that are None make every arm answer None; a finite answer here means the guard is missing
+        rep.ob("R04.1", f"{fi.name}[BinaryOp **]", not fin, f"{label}: the answer is None" if not fin else f"with {label} the analyser still answers a finite degree (`{fin[0][7:]}`): a non-polynomial term is classified polynomial", loc=fi.loc, detail=f"power-scenario:{label.split('(')[0].strip()}", robust=True)
+    return True
+
+
 def _verdict_is_conjunction(prog, rep, lin):
     """Problem._is_linear_problem answers True exactly when the objective AND every constraint pass is_linear: the
     function is walked under the four scenarios (objective linear?, the representative constraint linear?) on a cache
@@ -577,6 +681,7 @@ def _verdict_is_conjunction(prog, rep, lin):
 def check(prog, rep):
     for q in ANALYSERS:
         rep.section(check_analyser, prog, rep, prog.func(q))
+        rep.section(_power_by_scenario, prog, rep, prog.func(q))
     # ------------------------------------------------------------------ R04.4 consumers
     E = prog.cls("Expression")
     for owner, fn in (("Expression.is_linear", E.methods.get("is_linear")), ("analysis.is_linear", prog.func("optyx.analysis:is_linear")), ("analysis.is_quadratic", prog.func("optyx.analysis:is_quadratic"))):
